@@ -302,7 +302,7 @@ func spawnWorkers(bin string, p *Property, tier string, seed int64, ncases int, 
 			cmd := exec.Command(bin, args...)
 			cmd.Env = append(os.Environ(), "DBUS_SESSION_BUS_ADDRESS=unix:path=/nonexistent")
 			if race {
-				cmd.Env = append(cmd.Env, "GORACE=halt_on_error=0 log_path="+raceLogBase)
+				cmd.Env = append(cmd.Env, "GORACE=halt_on_error=0 exitcode=0 log_path="+raceLogBase)
 			}
 			lf, _ := os.Create(logs[i])
 			cmd.Stdout = lf
